@@ -207,16 +207,22 @@ func init() {
 		ruleSiblingArith(prog, rep, map[string]bool{"Get": true}, "B-get")
 		ruleLoopFlag(prog, rep, "B-flag")
 		ruleRadix(prog, rep)
+		ruleAppendRetain(prog, rep, "jp")
+		rulePresenceByNil(prog, rep)
 	}
 	rules["C11"] = func(prog *Program, rep *Report) {
 		rep.Explain("C11 decides sibling clauses across evaluators and representations: the cells of Get, FirstFound, Has, GetNodes and FirstNode keep the index-selection fingerprints they share today across containers and across evaluators (e.g. Has and FirstFound select indexes identically for slices). Not covered: correctness of the shared skeleton, reflection lookup semantics, Locate/Walk normalised paths.")
 		ruleSiblingArith(prog, rep, map[string]bool{"Get": true, "FirstFound": true, "Has": true, "GetNodes": true, "FirstNode": true}, "B-eval")
 		ruleLoopFlag(prog, rep, "B-flag")
+		ruleAppendRetain(prog, rep, "jp") // the reflection lookups build index paths level by level
+		rulePresenceByNil(prog, rep)
 	}
 	rules["C13"] = func(prog *Program, rep *Report) {
 		rep.Explain("C13 decides sibling clauses of the mutators: the cells of set and modify keep the index-selection fingerprints they share across []any, gen.Array and Indexed (and map, gen.Object, Keyed): bound normalisation, guards such as 0 <= i && i < LEN, loop bounds, and the labelled break that stops the *One forms after the first change. The known divergence of modify/remove from Get on the slice end bound (inclusive) is pinned by jp/remove_test.go and recorded in KNOWN_FINDINGS.txt. Not covered: the frame condition on values, Set's created structure.")
 		ruleSiblingArith(prog, rep, map[string]bool{"set": true, "modify": true}, "B-mutate")
 		ruleC13Extra(prog, rep)
+		ruleAppendRetain(prog, rep, "jp")
+		rulePresenceByNil(prog, rep)
 	}
 }
 
